@@ -229,8 +229,11 @@ Definition mulcst_assign (B : Z) (d : ct) (prec : meta) : M unit :=
 (* CKKSPlaintextCstRnx::to_znx(base2k, prec) = to_znx_at_k(base2k, prec.min_k, prec.log_delta): resulting metadata *)
 Definition cst_meta_of_prec (B : Z) (prec : meta) : meta := Meta (ld prec) (ssub (min_k B prec) (ld prec)).
 (* *_pt_const_rnx_*: both parts absent -> params on `prec` directly (no conversion); otherwise to_znx first *)
+(* to_znx(base2k, prec) of a constant with at least one part: log_delta <= 53, and the encoding needs one limb *)
+Definition cst_to_znx (B : Z) (prec : meta) (none : bool) : M unit :=
+  to_znx_check (ld prec) ;;; passert (none || (1 <=? min_k B prec)).
 Definition mulcstrnx_prec (B : Z) (prec : meta) (none : bool) : M meta :=
-  if none then ret prec else (to_znx_check (ld prec) ;;; ret (cst_meta_of_prec B prec)).
+  if none then ret prec else (cst_to_znx B prec false ;;; ret (cst_meta_of_prec B prec)).
 
 (* ---- delegates/composite.rs: mul_add / mul_sub: product into a scratch ciphertext with dst's layout, then add_assign ---- *)
 (* run a computation on a fresh scratch destination (meta default); failure leaves the real destination untouched *)
@@ -291,7 +294,7 @@ Inductive op :=
 | OMulInto | OMulAssign | OSquareInto | OSquareAssign
 | OMulPtZnxInto (p : ptz) | OMulPtZnxAssign (p : ptz)
 | OMulPtRnxInto (prec : meta) | OMulPtRnxAssign (prec : meta)
-| OMulCstZnxInto (prec : meta) | OMulCstZnxAssign (prec : meta)
+| OMulCstZnxInto (prec : meta) (none : bool) | OMulCstZnxAssign (prec : meta) (none : bool)
 | OMulCstRnxInto (prec : meta) (none : bool) | OMulCstRnxAssign (prec : meta) (none : bool)
 | OMulAccCt | OMulAccPtZnx (p : ptz) | OMulAccPtRnx (prec : meta)
 | OMulAccCstZnx (prec : meta) (none : bool) | OMulAccCstRnx (prec : meta) (none : bool)
@@ -325,15 +328,15 @@ Definition meta_m (chk : bool) (B : Z) (o : op) (d a b : ct) : M unit :=
   | OMulPtZnxAssign p => mulptz_assign B d p
   | OMulPtRnxInto prec => to_znx_check (ld prec) ;;; mulptz_into B d a (ptz_alloc B prec)
   | OMulPtRnxAssign prec => to_znx_check (ld prec) ;;; mulptz_assign B d (ptz_alloc B prec)
-  | OMulCstZnxInto prec => to_znx_check (ld prec) ;;; mulcst_into B d a (cst_meta_of_prec B prec)
-  | OMulCstZnxAssign prec => to_znx_check (ld prec) ;;; mulcst_assign B d (cst_meta_of_prec B prec)
+  | OMulCstZnxInto prec none => cst_to_znx B prec none ;;; mulcst_into B d a (cst_meta_of_prec B prec)
+  | OMulCstZnxAssign prec none => cst_to_znx B prec none ;;; mulcst_assign B d (cst_meta_of_prec B prec)
   | OMulCstRnxInto prec none => p <- mulcstrnx_prec B prec none ;; mulcst_into B d a p
   | OMulCstRnxAssign prec none => p <- mulcstrnx_prec B prec none ;; mulcst_assign B d p
   | OMulAccCt => mulacc chk (mul_into B d a b)
   | OMulAccPtZnx p => mulacc chk (mulptz_into B d a p)
   | OMulAccPtRnx prec => mulacc chk (to_znx_check (ld prec) ;;; mulptz_into B d a (ptz_alloc B prec))
   | OMulAccCstZnx prec none =>
-      to_znx_check (ld prec) ;;;
+      cst_to_znx B prec none ;;;
       if none then ret tt else mulacc chk (mulcst_into B d a (cst_meta_of_prec B prec))
   | OMulAccCstRnx prec none =>
       if none then ret tt else mulacc chk (p <- mulcstrnx_prec B prec false ;; mulcst_into B d a p)
@@ -463,8 +466,8 @@ Definition decode (B : Z) (s : list Z) : dstep :=
   | 37 => u0 (OMulPtZnxAssign pz)
   | 38 => u1 (OMulPtRnxInto m01)
   | 39 => u0 (OMulPtRnxAssign m01)
-  | 40 => u1 (OMulCstZnxInto m01)
-  | 41 => u0 (OMulCstZnxAssign m01)
+  | 40 => u1 (OMulCstZnxInto m01 none)
+  | 41 => u0 (OMulCstZnxAssign m01 none)
   | 42 => u1 (OMulCstRnxInto m01 none)
   | 43 => u0 (OMulCstRnxAssign m01 none)
   | 44 | 49 => u2 OMulAccCt
